@@ -1,9 +1,165 @@
+/-
+  C14 — template literals denote the same values as Python literals.
+
+  Model: `Model/Lex.lean` (scanners `matchInt`, `matchFloat`, `matchString`, `tagRule`), `Model/Literal.lean`
+  (conversions of `Lexer.wrap`, adjacent strings of `parse_primary`).  Reference: `Spec/PyLiteral.lean`
+  (Python's lexical grammar as data; `Lemmas/PyLiteral.lean` proves that the matcher the driver runs decides it).
+-/
 import JinjaV.Model.Literal
 import JinjaV.Lemmas.PyLiteral
+import JinjaV.Lemmas.Literal
 namespace JinjaV.C14
 open JinjaV.Lex JinjaV.Literal
 
-theorem adjacent_concat_stub (v : List CP) (rest : List PTok) :
-    (stringRun (.string v :: [])).1 = [v] := rfl
+-- strings -------------------------------------------------------------------------------------------------
+
+/-- Value level, all code points (lone surrogates included): whatever mixture of raw characters, single-character
+    escapes, `\xhh`, `\ooo`, `\uhhhh`, `\Uhhhhhhhh` is used to write `v` between quotes `q`, `wrap`'s
+    normalise / backslashreplace / unicode-escape pipeline gives back exactly `v`. -/
+theorem string_value_roundtrip (q : Nat) (sts : List Style) (v : List Nat) (h : stylesOk q sts v = true) :
+    unescapeBody (spellBody sts v) = .ok v :=
+  unescape_spelled q sts v h
+
+example : stylesOk 39 [.raw, .simple, .hex2, .oct3, .u4, .u8, .raw, .u4] [97, 39, 233, 10, 0x4e2d, 0x1f600, 0x1f600, 0xd800] = true ∧
+    spellBody [.raw, .simple, .hex2] [97, 39, 233] = [97, 92, 39, 92, 120, 101, 57] := by decide
+
+theorem matchInt_quote (s : Str) : matchInt ('\'' :: s) = none ∧ matchInt ('"' :: s) = none := by
+  constructor <;> cases s <;> simp [matchInt, matchPrefInt, matchDecInt]
+
+theorem matchFloat_quote (prev : Option Char) (s : Str) :
+    matchFloat prev ('\'' :: s) = none ∧ matchFloat prev ('"' :: s) = none := by
+  constructor <;>
+  · unfold matchFloat
+    split
+    · rfl
+    · simp [digitRun, digitRunF, isDigit]
+
+/-- at a quote character the tag rule is decided by the string scanner (no earlier rule can match) -/
+theorem tagRule_quote (q : Char) (hq : q = '\'' ∨ q = '"') (prev : Option Char) (s : Str) (m : Str × Str)
+    (hm : matchString (q :: s) = some m) : tagRule prev (q :: s) = .tok .string m.1 m.2 := by
+  rcases hq with rfl | rfl
+  · unfold tagRule
+    rw [(matchFloat_quote prev s).1, (matchInt_quote s).1, hm]
+    simp [spanSpace, spanP, isSpace, matchName, isWord, isDigit]
+  · unfold tagRule
+    rw [(matchFloat_quote prev s).2, (matchInt_quote s).2, hm]
+    simp [spanSpace, spanP, isSpace, matchName, isWord, isDigit]
+
+/-- Token level: for every string `v`, both quote characters and every applicable choice of styles (raw code points
+    being scalar values, as source text is `List Char`), the tag rule reads the quoted spelling as *one* string token
+    wherever it stands, and the value `wrap` computes for that token is `v`. -/
+theorem string_roundtrip (q : Char) (hq : q = '\'' ∨ q = '"') (sts : List Style) (v : List Nat)
+    (hok : stylesOk q.toNat sts v = true) (hraw : rawScalar sts v = true) (prev : Option Char) (rest : Str) :
+    tagRule prev (quoted q (spellBody sts v) ++ rest) = .tok .string (quoted q (spellBody sts v)) rest ∧
+    stringValue (quoted q (spellBody sts v)) = .ok v := by
+  constructor
+  · have hb := strBody_spelled q hq rest sts v hok
+    have hm : matchString (q :: ((spellBody sts v).map Char.ofNat ++ q :: rest)) =
+        some (q :: ((spellBody sts v).map Char.ofNat ++ [q]), rest) := by
+      rcases hq with rfl | rfl <;> simp [matchString, hb]
+    have e : quoted q (spellBody sts v) ++ rest = q :: ((spellBody sts v).map Char.ofNat ++ q :: rest) := by
+      simp [quoted]
+    rw [e, tagRule_quote q hq prev _ _ hm]
+    rfl
+  · have e : ((quoted q (spellBody sts v)).drop 1).dropLast = (spellBody sts v).map Char.ofNat := by
+      unfold quoted; simp
+    unfold stringValue
+    rw [e, map_toNat_ofNat _ (spelled_valid q.toNat sts v hok hraw)]
+    exact unescape_spelled q.toNat sts v hok
+
+example : rawScalar [.raw, .u4] [0x1f600, 0xd800] = true ∧ stylesOk '"'.toNat [.raw, .u4] [0x1f600, 0xd800] = true := by decide
+
+theorem reprStyle_ok (printable : Nat → Bool) (q c : Nat) (hq : q = 39 ∨ q = 34) (hc : c < 0x110000) :
+    (reprStyle printable q c).ok q c = true := by
+  unfold reprStyle
+  split
+  · rename_i h
+    simp only [Bool.or_eq_true, beq_iff_eq] at h
+    rcases h with rfl | rfl
+    · rfl
+    · rcases hq with rfl | rfl <;> rfl
+  · split
+    · rename_i h
+      simp only [Bool.or_eq_true, beq_iff_eq] at h
+      rcases h with (rfl | rfl) | rfl <;> rfl
+    · split
+      · rename_i h
+        simp only [Bool.or_eq_true, beq_iff_eq, decide_eq_true_eq] at h
+        simp only [Style.ok, decide_eq_true_eq]; omega
+      · rename_i h1 h2 h3
+        simp only [Bool.or_eq_true, beq_iff_eq, not_or] at h1 h2
+        have raw_ok : Style.ok q c .raw = true := by
+          simp only [Style.ok, Bool.and_eq_true, bne_iff_ne, ne_eq, decide_eq_true_eq]
+          exact ⟨⟨⟨h1.1, h1.2⟩, h2.2⟩, hc⟩
+        split
+        · exact raw_ok
+        · split
+          · exact raw_ok
+          · split
+            · rename_i h; simpa [Style.ok] using h
+            · split
+              · rename_i h; simpa [Style.ok] using h
+              · simpa [Style.ok] using hc
+
+theorem repr_stylesOk (printable : Nat → Bool) (q : Nat) (hq : q = 39 ∨ q = 34) :
+    ∀ (v : List Nat), (∀ c ∈ v, c < 0x110000) → stylesOk q (v.map (reprStyle printable q)) v = true
+  | [], _ => rfl
+  | c :: v, h => by
+    simp only [List.map_cons, stylesOk, Bool.and_eq_true]
+    exact ⟨reprStyle_ok printable q c hq (h c (by simp)), repr_stylesOk printable q hq v (fun x hx => h x (by simp [hx]))⟩
+
+theorem repr_rawScalar (printable : Nat → Bool) (q : Nat)
+    (hp : ∀ c, printable c = true → (c < 0xd800 ∨ (0xdfff < c ∧ c < 0x110000))) :
+    ∀ (v : List Nat), rawScalar (v.map (reprStyle printable q)) v = true
+  | [] => rfl
+  | c :: v => by
+    simp only [List.map_cons, rawScalar, Bool.and_eq_true]
+    refine ⟨?_, repr_rawScalar printable q hp v⟩
+    unfold reprStyle
+    repeat' split
+    all_goals first
+      | rfl
+      | (rename_i h; simp only [Bool.or_eq_true, decide_eq_true_eq, Bool.and_eq_true, bne_self_eq_false, Bool.false_or]
+         first
+           | (have := hp c h; omega)
+           | omega)
+
+/-- The spelling `repr()` produces (whichever code points `str.isprintable` leaves unescaped, as long as those are
+    scalar values), in either quote character, is read as one string token with value `v`. -/
+theorem repr_roundtrip (printable : Nat → Bool)
+    (hp : ∀ c, printable c = true → (c < 0xd800 ∨ (0xdfff < c ∧ c < 0x110000)))
+    (q : Char) (hq : q = '\'' ∨ q = '"') (v : List Nat) (hv : ∀ c ∈ v, c < 0x110000) (prev : Option Char) (rest : Str) :
+    tagRule prev (quoted q (reprBody printable q.toNat v) ++ rest) =
+      .tok .string (quoted q (reprBody printable q.toNat v)) rest ∧
+    stringValue (quoted q (reprBody printable q.toNat v)) = .ok v := by
+  have hqn : q.toNat = 39 ∨ q.toNat = 34 := by rcases hq with rfl | rfl <;> simp
+  exact string_roundtrip q hq _ v (repr_stylesOk printable q.toNat hqn v hv) (repr_rawScalar printable q.toNat hp v) prev rest
+
+example : reprBody (fun c => c == 233) 39 [97, 39, 233, 0x80, 0xd800, 10] =
+    [97, 92, 39, 233, 92, 120, 56, 48, 92, 117, 100, 56, 48, 48, 92, 110] := by decide
+
+-- adjacent string literals ------------------------------------------------------------------------------------
+
+theorem stringRun_strings (vs : List (List Nat)) (rest : List PTok) (hrest : ∀ v r, rest ≠ .string v :: r) :
+    stringRun (vs.map .string ++ rest) = (vs, rest) := by
+  induction vs with
+  | nil =>
+    simp only [List.map_nil, List.nil_append]
+    unfold stringRun
+    split
+    · rename_i v r; exact absurd rfl (hrest v r)
+    · rfl
+  | cons v vs ih => simp [stringRun, ih]
+
+/-- `parse_primary`: a run of string tokens (up to the first token that is not a string) denotes the concatenation
+    of their values, and parsing continues after the run. -/
+theorem adjacent_concat (v : List Nat) (vs : List (List Nat)) (rest : List PTok) (hrest : ∀ w r, rest ≠ .string w :: r) :
+    primaryString ((v :: vs).map .string ++ rest) = some ((v :: vs).flatten, rest) := by
+  have := stringRun_strings (v :: vs) rest hrest
+  simp only [List.map_cons, List.cons_append] at this
+  simp only [List.map_cons, List.cons_append, primaryString, this]
+
+example : primaryString [.string [97], .string [98, 99], .other .operator ['+'], .string [100]] =
+    some ([97, 98, 99], [.other .operator ['+'], .string [100]]) := by decide
 
 end JinjaV.C14
